@@ -21,7 +21,7 @@ PID = "C20"
 MODULE = "Check.C20"
 VERDICT = "verdict_C20"
 CLASS_BITS = {16: "K_order"}
-NCASES = (40, 1200)
+NCASES = (100, 1200)
 RULE = ("generator W (virtual workspaces, depth 0-3, conftest kinds, override chains incl. multi-line signatures, plugin and "
         "site-packages providers) with autouse fixtures sprinkled in; one evaluation = one definition's (CLI count, server "
         "reference list) comparison or one CLI process run; non-trivial = the workspace has an unused or an autouse fixture or "
@@ -251,7 +251,7 @@ def run(r):
     core.coq_make(["theories/Check/C20.vo"])
     stdlib = set(core.tables()["stdlib_modules"])
     rnd = random.Random(r.seed + 77)
-    nruns, bad, kinds = explore_binary(r, h1, rnd, 8 if quick else 200, stdlib)
+    nruns, bad, kinds = explore_binary(r, h1, rnd, 20 if quick else 200, stdlib)
     known_hits = [b for b in bad if b.get("order_sensitive_class")]
     for k, b in enumerate([b for b in bad if not b.get("order_sensitive_class")][:3]):
         r.violation(dict({"property": PID, "part": "binary"}, **b), "cli_%d" % k)
